@@ -63,10 +63,890 @@ Proof. apply sfx_len, sfx_skip_optional, sfx_refl. Qed.
 Lemma sfx_Forall (Q : token -> Prop) a b : sfx a b -> Forall Q b -> Forall Q a.
 Proof. intros [p ->] H. apply Forall_app in H. tauto. Qed.
 
-Lemma skip_ok k ts u ts' : skip k ts = Ok (u, ts') -> ssfx ts' ts.
+Lemma skip_ok k ts u ts' : ftoken_eqb k KEof = false -> skip k ts = Ok (u, ts') -> ssfx ts' ts.
 Proof.
-  unfold skip. destruct ts as [|t ts0]; cbn [cur advance tl].
-  - destruct (is_fix k (TFix KEof)); intros H; inversion H; subst.
-    (* skipping the virtual Eof of the empty list: only k = KEof; it does not shrink the list,
-       but no caller skips KEof *)
-    Abort.
+  unfold skip. intros Hk. destruct ts as [|t ts0]; cbn [cur advance tl].
+  - cbn [is_fix]. rewrite Hk. discriminate.
+  - destruct (is_fix k t); intros H; inversion H; subst.
+    split; [apply sfx_cons, sfx_refl | cbn; lia].
+Qed.
+
+Lemma skip_noof k ts : skip k ts <> OutOfFuel.
+Proof. unfold skip. destruct (is_fix k (cur ts)); discriminate. Qed.
+Lemma skip_nofault k ts : nofault (skip k ts).
+Proof. unfold skip. destruct (is_fix k (cur ts)); intros x; discriminate. Qed.
+
+(** * Unfolding equations of the mutual block *)
+
+Section PT.
+  Variable pf : text -> option float.
+
+  (* the prefix ("nud") part of parse_expr and the dispatch of parse_statement, named so that they
+     can be treated like two more functions of the block *)
+  Definition parse_head (f : nat) (ts : list token) : P expr :=
+    match cur ts with
+    | TIntLit s => do e <- int_literal s; Ok (e, advance ts)
+    | TFloatLit s => do e <- float_literal pf s; Ok (e, advance ts)
+    | TFix KTrue => Ok (EBool true, advance ts)
+    | TFix KFalse => Ok (EBool false, advance ts)
+    | TStringLit s => Ok (EString (decode_string s), advance ts)
+    | TFix KOpenParen =>
+        do (e, ts') <- parse_expr pf f PLowest (advance ts);
+        do (_, ts'') <- skip KCloseParen ts';
+        Ok (e, ts'')
+    | TFix KIf => parse_if_expr pf f ts
+    | TFix KBang | TFix KMinus => parse_prefix_expr pf f ts
+    | TIdent name => Ok (EIdent name, advance ts)
+    | TFix KFunc => parse_function_expr pf f ts
+    | TFix KWhile => parse_while_expr pf f ts
+    | TFix KOpenBracket => parse_array_expr pf f ts
+    | _ => Err ESyntaxError
+    end.
+
+  Definition stmt_head (f : nat) (ts : list token) : P stmt :=
+    match cur ts with
+    | TFix KDeclare =>
+        let ts1 := advance ts in
+        match cur ts1 with
+        | TIdent n =>
+            do (_, ts2) <- skip KAssign (advance ts1);
+            do (v, ts3) <- parse_expr pf f PLowest ts2;
+            Ok (SLet n v, ts3)
+        | _ => Err ESyntaxError
+        end
+    | TFix KOpenBrace => do (b, ts1) <- parse_block_statement pf f ts; Ok (SBlock b, ts1)
+    | TFix KReturn => do (e, ts1) <- parse_expr pf f PLowest (advance ts); Ok (SReturn e, ts1)
+    | TFix KContinue => Ok (SContinue, advance ts)
+    | TFix KBreak => Ok (SBreak, advance ts)
+    | _ => do (e, ts1) <- parse_expr pf f PLowest ts; Ok (SExpr e, ts1)
+    end.
+
+  Lemma parse_expr_S f p ts :
+    parse_expr pf (S f) p ts = do (lhs, ts1) <- parse_head f ts; parse_loop pf f p lhs ts1.
+  Proof. reflexivity. Qed.
+
+  Lemma parse_loop_S f p lhs ts :
+    parse_loop pf (S f) p lhs ts =
+      if negb (is_fix KSemi (cur ts)) && prec_lt p (token_precedence (cur ts)) then
+        if is_infix_token (cur ts) then
+          do (e, ts') <- parse_infix_expr pf f lhs ts; parse_loop pf f p e ts'
+        else if is_fix KAssign (cur ts) then
+          do (e, ts') <- parse_assign_expr pf f lhs ts; parse_loop pf f p e ts'
+        else if is_fix KOpenParen (cur ts) then
+          do (e, ts') <- parse_call_expr pf f lhs ts; parse_loop pf f p e ts'
+        else if is_fix KOpenBracket (cur ts) then
+          do (e, ts') <- parse_index_expr pf f lhs ts; parse_loop pf f p e ts'
+        else Ok (lhs, ts)
+      else Ok (lhs, ts).
+  Proof. reflexivity. Qed.
+
+  (* the body of parse_infix_expr once the left operand is known not to be a function literal *)
+  Definition infix_body (f : nat) (lhs : expr) (ts : list token) : P expr :=
+    match operator_of (cur ts) with
+    | None => Fault FUnwrap
+    | Some op =>
+        let p := token_precedence (cur ts) in
+        let ts1 := advance ts in
+        if is_fix KAssign (cur ts1) && match lhs with EIdent _ => true | _ => false end then
+          do (rhs, ts2) <- parse_expr pf f PLowest (advance ts1);
+          Ok (EAssign lhs (EInfix lhs op rhs), ts2)
+        else
+          do (rhs, ts2) <- parse_expr pf f p ts1;
+          Ok (EInfix lhs op rhs, ts2)
+    end.
+
+  Lemma parse_infix_expr_S f lhs ts :
+    parse_infix_expr pf (S f) lhs ts =
+      match lhs with
+      | EFunction _ _ _ => Err ETypeError
+      | _ => infix_body f lhs ts
+      end.
+  Proof. destruct lhs; reflexivity. Qed.
+
+  Lemma parse_prefix_expr_S f ts :
+    parse_prefix_expr pf (S f) ts =
+      match operator_of (cur ts) with
+      | None => Fault FUnwrap
+      | Some op =>
+          let p := token_precedence (cur ts) in
+          do (rhs, ts') <- parse_expr pf f p (advance ts);
+          Ok (EPrefix op rhs, ts')
+      end.
+  Proof. reflexivity. Qed.
+
+  Lemma parse_if_expr_S f ts :
+    parse_if_expr pf (S f) ts =
+      do (c, ts1) <- parse_expr pf f PLowest (advance ts);
+      do (t, ts2) <- parse_block_statement pf f ts1;
+      if is_fix KElse (cur ts2) then
+        let ts3 := advance ts2 in
+        if is_fix KIf (cur ts3) then
+          do (s, ts4) <- parse_statement pf f ts3;
+          Ok (EIf c t (Some [s]), ts4)
+        else
+          do (e, ts4) <- parse_block_statement pf f ts3;
+          Ok (EIf c t (Some e), ts4)
+      else Ok (EIf c t None, ts2).
+  Proof. reflexivity. Qed.
+
+  Definition assign_body (f : nat) (lhs : expr) (ts : list token) : P expr :=
+    do (rhs, ts') <- parse_expr pf f PAssign (advance ts);
+    Ok (EAssign lhs rhs, ts').
+
+  Lemma parse_assign_expr_S f lhs ts :
+    parse_assign_expr pf (S f) lhs ts =
+      match lhs with
+      | EIdent _ | EIndex _ _ => assign_body f lhs ts
+      | _ => Err ETypeError
+      end.
+  Proof. destruct lhs; reflexivity. Qed.
+
+  Lemma parse_function_expr_S f ts :
+    parse_function_expr pf (S f) ts =
+      let ts1 := advance ts in
+      let '(name, ts2) := match cur ts1 with TIdent n => (n, advance ts1) | _ => ([], ts1) end in
+      do (_, ts3) <- skip KOpenParen ts2;
+      do (params, ts4) <- parse_params pf f ts3;
+      do (_, ts5) <- skip KCloseParen ts4;
+      do (body, ts6) <- parse_block_statement pf f ts5;
+      Ok (EFunction name params body, ts6).
+  Proof. reflexivity. Qed.
+
+  Lemma parse_params_S f ts :
+    parse_params pf (S f) ts =
+      if is_fix KCloseParen (cur ts) then Ok ([], ts)
+      else match cur ts with
+           | TIdent n =>
+               do (rest, ts') <- parse_params pf f (skip_optional KComma (advance ts));
+               Ok (n :: rest, ts')
+           | _ => Err ESyntaxError
+           end.
+  Proof. reflexivity. Qed.
+
+  Definition call_body (f : nat) (lhs : expr) (ts : list token) : P expr :=
+    do (args, ts') <- parse_list pf f KCloseParen (advance ts);
+    Ok (ECall lhs args, advance ts').
+
+  Lemma parse_call_expr_S f lhs ts :
+    parse_call_expr pf (S f) lhs ts =
+      match lhs with
+      | EIdent _ | EFunction _ _ _ => call_body f lhs ts
+      | _ => Err ETypeError
+      end.
+  Proof. destruct lhs; reflexivity. Qed.
+
+  Lemma parse_list_S f close ts :
+    parse_list pf (S f) close ts =
+      if is_fix close (cur ts) then Ok ([], ts)
+      else
+        do (e, ts1) <- parse_expr pf f PLowest ts;
+        do (rest, ts2) <- parse_list pf f close (skip_optional KComma ts1);
+        Ok (e :: rest, ts2).
+  Proof. reflexivity. Qed.
+
+  Lemma parse_while_expr_S f ts :
+    parse_while_expr pf (S f) ts =
+      do (c, ts1) <- parse_expr pf f PLowest (advance ts);
+      do (b, ts2) <- parse_block_statement pf f ts1;
+      Ok (EWhile c b, ts2).
+  Proof. reflexivity. Qed.
+
+  Lemma parse_array_expr_S f ts :
+    parse_array_expr pf (S f) ts =
+      do (vs, ts1) <- parse_list pf f KCloseBracket (advance ts);
+      do (_, ts2) <- skip KCloseBracket ts1;
+      Ok (EArray vs, ts2).
+  Proof. reflexivity. Qed.
+
+  Definition index_body (f : nat) (lhs : expr) (ts : list token) : P expr :=
+    do (i, ts1) <- parse_expr pf f PLowest (advance ts);
+    do (_, ts2) <- skip KCloseBracket ts1;
+    Ok (EIndex lhs i, ts2).
+
+  Lemma parse_index_expr_S f lhs ts :
+    parse_index_expr pf (S f) lhs ts =
+      match lhs with
+      | EIdent _ | EArray _ | EString _ => index_body f lhs ts
+      | _ => Err ETypeError
+      end.
+  Proof. destruct lhs; reflexivity. Qed.
+
+  Lemma parse_statement_S f ts :
+    parse_statement pf (S f) ts = do (s, ts') <- stmt_head f ts; Ok (s, skip_optional KSemi ts').
+  Proof. reflexivity. Qed.
+
+  Lemma parse_block_statement_S f ts :
+    parse_block_statement pf (S f) ts =
+      do (_, ts1) <- skip KOpenBrace ts;
+      do (b, ts2) <- parse_block_items pf f ts1;
+      do (_, ts3) <- skip KCloseBrace ts2;
+      Ok (b, ts3).
+  Proof. reflexivity. Qed.
+
+  Lemma parse_block_items_S f ts :
+    parse_block_items pf (S f) ts =
+      if is_fix KEof (cur ts) || is_fix KCloseBrace (cur ts) then Ok ([], ts)
+      else
+        do (s, ts1) <- parse_statement pf f ts;
+        do (rest, ts2) <- parse_block_items pf f ts1;
+        Ok (s :: rest, ts2).
+  Proof. reflexivity. Qed.
+
+  Lemma parse_program_S f ts :
+    parse_program pf (S f) ts =
+      if is_fix KEof (cur ts) then Ok []
+      else
+        do (s, ts1) <- parse_statement pf f ts;
+        do rest <- parse_program pf f ts1;
+        Ok (s :: rest).
+  Proof. reflexivity. Qed.
+
+  #[local] Arguments parse_expr : simpl never.
+  #[local] Arguments parse_loop : simpl never.
+  #[local] Arguments parse_infix_expr : simpl never.
+  #[local] Arguments parse_prefix_expr : simpl never.
+  #[local] Arguments parse_if_expr : simpl never.
+  #[local] Arguments parse_assign_expr : simpl never.
+  #[local] Arguments parse_function_expr : simpl never.
+  #[local] Arguments parse_params : simpl never.
+  #[local] Arguments parse_call_expr : simpl never.
+  #[local] Arguments parse_list : simpl never.
+  #[local] Arguments parse_while_expr : simpl never.
+  #[local] Arguments parse_array_expr : simpl never.
+  #[local] Arguments parse_index_expr : simpl never.
+  #[local] Arguments parse_statement : simpl never.
+  #[local] Arguments parse_block_statement : simpl never.
+  #[local] Arguments parse_block_items : simpl never.
+  #[local] Arguments parse_program : simpl never.
+
+  (** * A: the remaining tokens are a suffix of the input *)
+
+  Record A_all (f : nat) : Prop := {
+    A_expr : forall p ts r ts', parse_expr pf f p ts = Ok (r, ts') -> ssfx ts' ts;
+    A_loop : forall p l ts r ts', parse_loop pf f p l ts = Ok (r, ts') -> sfx ts' ts;
+    A_infix : forall l ts r ts', parse_infix_expr pf f l ts = Ok (r, ts') -> ssfx ts' ts;
+    A_prefix : forall ts r ts', parse_prefix_expr pf f ts = Ok (r, ts') -> ssfx ts' ts;
+    A_if : forall ts r ts', parse_if_expr pf f ts = Ok (r, ts') -> ssfx ts' ts;
+    A_assign : forall l ts r ts', parse_assign_expr pf f l ts = Ok (r, ts') -> ssfx ts' ts;
+    A_function : forall ts r ts', parse_function_expr pf f ts = Ok (r, ts') -> ssfx ts' ts;
+    A_params : forall ts r ts', parse_params pf f ts = Ok (r, ts') -> sfx ts' ts;
+    A_call : forall l ts r ts', parse_call_expr pf f l ts = Ok (r, ts') -> ssfx ts' ts;
+    A_list : forall c ts r ts', parse_list pf f c ts = Ok (r, ts') -> sfx ts' ts;
+    A_while : forall ts r ts', parse_while_expr pf f ts = Ok (r, ts') -> ssfx ts' ts;
+    A_array : forall ts r ts', parse_array_expr pf f ts = Ok (r, ts') -> ssfx ts' ts;
+    A_index : forall l ts r ts', parse_index_expr pf f l ts = Ok (r, ts') -> ssfx ts' ts;
+    A_statement : forall ts r ts', parse_statement pf f ts = Ok (r, ts') -> ssfx ts' ts;
+    A_block_statement : forall ts r ts', parse_block_statement pf f ts = Ok (r, ts') -> ssfx ts' ts;
+    A_block_items : forall ts r ts', parse_block_items pf f ts = Ok (r, ts') -> sfx ts' ts
+  }.
+
+  (* take apart a hypothesis [body = Ok _] *)
+  Ltac okstep :=
+    match goal with
+    | H : Ok _ = Ok _ |- _ => inversion H; subst; clear H
+    | H : Err _ = Ok _ |- _ => discriminate H
+    | H : Fault _ = Ok _ |- _ => discriminate H
+    | H : OutOfFuel = Ok _ |- _ => discriminate H
+    | H : bind ?e _ = Ok _ |- _ =>
+        let a := fresh "a" in let E := fresh "E" in
+        apply pt_bind_ok in H; destruct H as [a [E H]]; try (destruct a as [? ?])
+    | H : context [match ?x with _ => _ end] |- _ =>
+        lazymatch x with context [match _ with _ => _ end] => fail | _ => idtac end;
+        first [ is_var x; destruct x | destruct x eqn:? ]
+    end.
+
+  Ltac lens :=
+    repeat match goal with
+    | H : ssfx _ _ |- _ => let L := fresh "L" in destruct H as [H L]
+    end;
+    repeat match goal with
+    | H : sfx ?a ?b |- _ =>
+        lazymatch goal with
+        | _ : length a <= length b |- _ => fail
+        | _ => pose proof (sfx_len _ _ H)
+        end
+    end;
+    repeat match goal with
+    | |- context [length (skip_optional ?k ?a)] =>
+        lazymatch goal with
+        | _ : length (skip_optional k a) <= length a |- _ => fail
+        | _ => pose proof (len_skip_optional k a)
+        end
+    | _ : context [length (skip_optional ?k ?a)] |- _ =>
+        lazymatch goal with
+        | _ : length (skip_optional k a) <= length a |- _ => fail
+        | _ => pose proof (len_skip_optional k a)
+        end
+    | |- context [length (advance ?a)] =>
+        lazymatch goal with
+        | _ : length (advance a) <= length a |- _ => fail
+        | _ => pose proof (len_advance a)
+        end
+    | _ : context [length (advance ?a)] |- _ =>
+        lazymatch goal with
+        | _ : length (advance a) <= length a |- _ => fail
+        | _ => pose proof (len_advance a)
+        end
+    end;
+    cbn [length] in *.
+
+  Ltac chain :=
+    first [ apply sfx_refl
+          | assumption
+          | apply sfx_cons; chain
+          | apply sfx_advance; chain
+          | apply sfx_skip_optional; chain
+          | match goal with
+            | H : sfx ?a ?b |- sfx ?a _ => apply (sfx_trans _ _ _ H); chain
+            end ].
+
+  Ltac fin := lens; solve [ chain | split; [ chain | lens; lia ] ].
+
+  Ltac useA IH :=
+    repeat match goal with
+    | H : skip _ _ = Ok _ |- _ => apply skip_ok in H; [ | reflexivity ]
+    | H : parse_expr pf _ _ _ = Ok _ |- _ => apply (A_expr _ IH) in H
+    | H : parse_loop pf _ _ _ _ = Ok _ |- _ => apply (A_loop _ IH) in H
+    | H : parse_infix_expr pf _ _ _ = Ok _ |- _ => apply (A_infix _ IH) in H
+    | H : parse_prefix_expr pf _ _ = Ok _ |- _ => apply (A_prefix _ IH) in H
+    | H : parse_if_expr pf _ _ = Ok _ |- _ => apply (A_if _ IH) in H
+    | H : parse_assign_expr pf _ _ _ = Ok _ |- _ => apply (A_assign _ IH) in H
+    | H : parse_function_expr pf _ _ = Ok _ |- _ => apply (A_function _ IH) in H
+    | H : parse_params pf _ _ = Ok _ |- _ => apply (A_params _ IH) in H
+    | H : parse_call_expr pf _ _ _ = Ok _ |- _ => apply (A_call _ IH) in H
+    | H : parse_list pf _ _ _ = Ok _ |- _ => apply (A_list _ IH) in H
+    | H : parse_while_expr pf _ _ = Ok _ |- _ => apply (A_while _ IH) in H
+    | H : parse_array_expr pf _ _ = Ok _ |- _ => apply (A_array _ IH) in H
+    | H : parse_index_expr pf _ _ _ = Ok _ |- _ => apply (A_index _ IH) in H
+    | H : parse_statement pf _ _ = Ok _ |- _ => apply (A_statement _ IH) in H
+    | H : parse_block_statement pf _ _ = Ok _ |- _ => apply (A_block_statement _ IH) in H
+    | H : parse_block_items pf _ _ = Ok _ |- _ => apply (A_block_items _ IH) in H
+    end.
+
+  Ltac solveA IH := repeat okstep; useA IH; fin.
+
+  Lemma A_head f (IH : A_all f) ts r ts' : parse_head f ts = Ok (r, ts') -> ssfx ts' ts.
+  Proof.
+    unfold parse_head. intros H. destruct ts as [|t ts0]; cbn [cur advance tl] in H; [discriminate|].
+    solveA IH.
+  Qed.
+
+  Lemma A_stmt_head f (IH : A_all f) ts r ts' : stmt_head f ts = Ok (r, ts') -> ssfx ts' ts.
+  Proof.
+    unfold stmt_head. intros H. destruct ts as [|t ts0]; cbn [cur advance tl] in H; cbv zeta in H.
+    - okstep. apply (A_expr _ IH) in E. lens. lia.
+    - solveA IH.
+  Qed.
+
+  Lemma operator_of_nil : operator_of (cur []) = None.
+  Proof. reflexivity. Qed.
+
+  Lemma A_infix_body f (IH : A_all f) l ts r ts' : infix_body f l ts = Ok (r, ts') -> ssfx ts' ts.
+  Proof.
+    unfold infix_body. intros H. destruct ts as [|t ts0].
+    - rewrite operator_of_nil in H. discriminate.
+    - cbn [cur advance tl] in H; cbv zeta in H.
+      destruct (operator_of t); [|discriminate].
+      destruct (is_fix KAssign (cur ts0) && _); solveA IH.
+  Qed.
+
+  Lemma A_assign_body f (IH : A_all f) l ts r ts' : assign_body f l ts = Ok (r, ts') -> ssfx ts' ts.
+  Proof. unfold assign_body. intros H. solveA IH. Qed.
+
+  Lemma A_index_body f (IH : A_all f) l ts r ts' : index_body f l ts = Ok (r, ts') -> ssfx ts' ts.
+  Proof. unfold index_body. intros H. solveA IH. Qed.
+
+  Lemma parse_head_nil f : parse_head f [] = Err ESyntaxError.
+  Proof. reflexivity. Qed.
+
+  Lemma parse_expr_nil f p : parse_expr pf (S f) p [] = Err ESyntaxError.
+  Proof. rewrite parse_expr_S, parse_head_nil. reflexivity. Qed.
+
+  Lemma parse_list_nil f c :
+    ftoken_eqb c KEof = false -> parse_list pf (S (S f)) c [] = Err ESyntaxError.
+  Proof.
+    intros Hc. rewrite parse_list_S. cbn [cur is_fix]. rewrite Hc, parse_expr_nil. reflexivity.
+  Qed.
+
+  Lemma A_call_body f (IH : A_all f) l ts r ts' : call_body f l ts = Ok (r, ts') -> ssfx ts' ts.
+  Proof.
+    unfold call_body. intros H. destruct ts as [|t ts0]; cbn [advance tl] in H.
+    - destruct f as [|[|f]]; discriminate.
+    - solveA IH.
+  Qed.
+
+  Lemma A_zero : A_all 0.
+  Proof. split; intros; discriminate. Qed.
+
+  Lemma A_step f : A_all f -> A_all (S f).
+  Proof.
+    intros IH. split.
+    - intros p ts r ts'. rewrite parse_expr_S. intros H.
+      okstep. apply A_head in E; auto. solveA IH.
+    - intros p l ts r ts'. rewrite parse_loop_S. intros H. solveA IH.
+    - intros l ts r ts'. rewrite parse_infix_expr_S. intros H.
+      destruct l; try discriminate; eapply A_infix_body; eauto.
+    - intros ts r ts'. rewrite parse_prefix_expr_S. intros H. cbv zeta in H. solveA IH.
+    - intros ts r ts'. rewrite parse_if_expr_S. intros H. cbv zeta in H. solveA IH.
+    - intros l ts r ts'. rewrite parse_assign_expr_S. intros H.
+      destruct l; try discriminate; eapply A_assign_body; eauto.
+    - intros ts r ts'. rewrite parse_function_expr_S. intros H. cbv zeta in H. solveA IH.
+    - intros ts r ts'. rewrite parse_params_S. intros H. solveA IH.
+    - intros l ts r ts'. rewrite parse_call_expr_S. intros H.
+      destruct l; try discriminate; eapply A_call_body; eauto.
+    - intros c ts r ts'. rewrite parse_list_S. intros H. solveA IH.
+    - intros ts r ts'. rewrite parse_while_expr_S. intros H. solveA IH.
+    - intros ts r ts'. rewrite parse_array_expr_S. intros H. solveA IH.
+    - intros l ts r ts'. rewrite parse_index_expr_S. intros H.
+      destruct l; try discriminate; eapply A_index_body; eauto.
+    - intros ts r ts'. rewrite parse_statement_S. intros H.
+      okstep. apply A_stmt_head in E; auto. solveA IH.
+    - intros ts r ts'. rewrite parse_block_statement_S. intros H. solveA IH.
+    - intros ts r ts'. rewrite parse_block_items_S. intros H. solveA IH.
+  Qed.
+
+  Lemma A_holds f : A_all f.
+  Proof. induction f; auto using A_zero, A_step. Qed.
+
+  (** * B: no OutOfFuel above the potential 3 * length ts + k_F *)
+
+  Record B_all (f : nat) : Prop := {
+    B_expr : forall p ts, 3 * length ts + 4 <= f -> parse_expr pf f p ts <> OutOfFuel;
+    B_loop : forall p l ts, 3 * length ts + 4 <= f -> parse_loop pf f p l ts <> OutOfFuel;
+    B_infix : forall l ts, 3 * length ts + 3 <= f -> parse_infix_expr pf f l ts <> OutOfFuel;
+    B_prefix : forall ts, 3 * length ts + 3 <= f -> parse_prefix_expr pf f ts <> OutOfFuel;
+    B_if : forall ts, 3 * length ts + 3 <= f -> parse_if_expr pf f ts <> OutOfFuel;
+    B_assign : forall l ts, 3 * length ts + 3 <= f -> parse_assign_expr pf f l ts <> OutOfFuel;
+    B_function : forall ts, 3 * length ts + 3 <= f -> parse_function_expr pf f ts <> OutOfFuel;
+    B_params : forall ts, 3 * length ts + 1 <= f -> parse_params pf f ts <> OutOfFuel;
+    B_call : forall l ts, 3 * length ts + 3 <= f -> parse_call_expr pf f l ts <> OutOfFuel;
+    B_list : forall c ts, 3 * length ts + 5 <= f -> parse_list pf f c ts <> OutOfFuel;
+    B_while : forall ts, 3 * length ts + 3 <= f -> parse_while_expr pf f ts <> OutOfFuel;
+    B_array : forall ts, 3 * length ts + 3 <= f -> parse_array_expr pf f ts <> OutOfFuel;
+    B_index : forall l ts, 3 * length ts + 3 <= f -> parse_index_expr pf f l ts <> OutOfFuel;
+    B_statement : forall ts, 3 * length ts + 5 <= f -> parse_statement pf f ts <> OutOfFuel;
+    B_block_statement : forall ts, 3 * length ts + 4 <= f -> parse_block_statement pf f ts <> OutOfFuel;
+    B_block_items : forall ts, 3 * length ts + 6 <= f -> parse_block_items pf f ts <> OutOfFuel
+  }.
+
+  Lemma int_literal_noof s : int_literal s <> OutOfFuel.
+  Proof. unfold int_literal. destruct (parse_digits s 0%N); [destruct (_ <=? _)%Z|]; discriminate. Qed.
+  Lemma float_literal_noof s : float_literal pf s <> OutOfFuel.
+  Proof. unfold float_literal. destruct (pf s); discriminate. Qed.
+
+  (* every [_ = Ok _] fact in the context becomes a suffix fact *)
+  Ltac facts :=
+    repeat match goal with
+    | H : parse_head _ _ = Ok _ |- _ => apply (A_head _ (A_holds _)) in H
+    | H : stmt_head _ _ = Ok _ |- _ => apply (A_stmt_head _ (A_holds _)) in H
+    end;
+    useA uconstr:(A_holds _);
+    lens.
+
+
+  Ltac noofstep IHB :=
+    match goal with
+    | |- Ok _ <> OutOfFuel => discriminate
+    | |- Err _ <> OutOfFuel => discriminate
+    | |- Fault _ <> OutOfFuel => discriminate
+    | |- skip _ _ <> OutOfFuel => apply skip_noof
+    | |- int_literal _ <> OutOfFuel => apply int_literal_noof
+    | |- float_literal _ _ <> OutOfFuel => apply float_literal_noof
+    | |- bind _ _ <> OutOfFuel =>
+        let a := fresh "a" in let E := fresh "E" in
+        apply pt_bind_noof; [ | intros a E; try (destruct a as [? ?]) ]
+    | |- context [match ?x with _ => _ end] =>
+        lazymatch x with context [match _ with _ => _ end] => fail | _ => idtac end;
+        first [ is_var x; destruct x | destruct x eqn:? ]
+    | |- parse_expr pf _ _ _ <> OutOfFuel => apply (B_expr _ IHB); facts; lia
+    | |- parse_loop pf _ _ _ _ <> OutOfFuel => apply (B_loop _ IHB); facts; lia
+    | |- parse_infix_expr pf _ _ _ <> OutOfFuel => apply (B_infix _ IHB); facts; lia
+    | |- parse_prefix_expr pf _ _ <> OutOfFuel => apply (B_prefix _ IHB); facts; lia
+    | |- parse_if_expr pf _ _ <> OutOfFuel => apply (B_if _ IHB); facts; lia
+    | |- parse_assign_expr pf _ _ _ <> OutOfFuel => apply (B_assign _ IHB); facts; lia
+    | |- parse_function_expr pf _ _ <> OutOfFuel => apply (B_function _ IHB); facts; lia
+    | |- parse_params pf _ _ <> OutOfFuel => apply (B_params _ IHB); facts; lia
+    | |- parse_call_expr pf _ _ _ <> OutOfFuel => apply (B_call _ IHB); facts; lia
+    | |- parse_list pf _ _ _ <> OutOfFuel => apply (B_list _ IHB); facts; lia
+    | |- parse_while_expr pf _ _ <> OutOfFuel => apply (B_while _ IHB); facts; lia
+    | |- parse_array_expr pf _ _ <> OutOfFuel => apply (B_array _ IHB); facts; lia
+    | |- parse_index_expr pf _ _ _ <> OutOfFuel => apply (B_index _ IHB); facts; lia
+    | |- parse_statement pf _ _ <> OutOfFuel => apply (B_statement _ IHB); facts; lia
+    | |- parse_block_statement pf _ _ <> OutOfFuel => apply (B_block_statement _ IHB); facts; lia
+    | |- parse_block_items pf _ _ <> OutOfFuel => apply (B_block_items _ IHB); facts; lia
+    end.
+
+  Ltac solveB IHB := cbn [cur advance tl]; cbv zeta; repeat noofstep IHB.
+
+  (* the empty token list: the function fails (or stops) within two further calls *)
+  Ltac nilB f := destruct f as [|[|f]]; first [ discriminate | cbn [length] in *; lia ].
+
+  Lemma B_head f (IHB : B_all f) ts : 3 * length ts + 3 <= f -> parse_head f ts <> OutOfFuel.
+  Proof.
+    unfold parse_head. intros Hf. destruct ts as [|t ts0]; [discriminate|]. solveB IHB.
+  Qed.
+
+  Lemma B_stmt_head f (IHB : B_all f) ts : 3 * length ts + 4 <= f -> stmt_head f ts <> OutOfFuel.
+  Proof.
+    unfold stmt_head. intros Hf. destruct ts as [|t ts0]; solveB IHB.
+  Qed.
+
+  Lemma B_infix_body f (IHB : B_all f) l ts : 3 * length ts + 2 <= f -> infix_body f l ts <> OutOfFuel.
+  Proof.
+    unfold infix_body. intros Hf. destruct ts as [|t ts0]; [discriminate|]. solveB IHB.
+  Qed.
+
+  Lemma B_assign_body f (IHB : B_all f) l ts : 3 * length ts + 2 <= f -> assign_body f l ts <> OutOfFuel.
+  Proof.
+    unfold assign_body. intros Hf. destruct ts as [|t ts0]; [nilB f|]. solveB IHB.
+  Qed.
+
+  Lemma B_index_body f (IHB : B_all f) l ts : 3 * length ts + 2 <= f -> index_body f l ts <> OutOfFuel.
+  Proof.
+    unfold index_body. intros Hf. destruct ts as [|t ts0]; [nilB f|]. solveB IHB.
+  Qed.
+
+  Lemma B_call_body f (IHB : B_all f) l ts : 3 * length ts + 2 <= f -> call_body f l ts <> OutOfFuel.
+  Proof.
+    unfold call_body. intros Hf. destruct ts as [|t ts0]; [nilB f|]. solveB IHB.
+  Qed.
+
+
+  Lemma B_zero : B_all 0.
+  Proof. split; intros; lia. Qed.
+
+  Lemma B_step f : B_all f -> B_all (S f).
+  Proof.
+    intros IHB. split.
+    - intros p ts Hf. rewrite parse_expr_S. apply pt_bind_noof.
+      + apply B_head; auto. lia.
+      + intros [l ts1] E. solveB IHB.
+    - intros p l ts Hf. rewrite parse_loop_S. solveB IHB.
+    - intros l ts Hf. rewrite parse_infix_expr_S.
+      destruct l; try discriminate; apply B_infix_body; auto; lia.
+    - intros ts Hf. rewrite parse_prefix_expr_S. destruct ts as [|t ts0]; [discriminate|]. solveB IHB.
+    - intros ts Hf. rewrite parse_if_expr_S. destruct ts as [|t ts0]; [nilB f|]. solveB IHB.
+    - intros l ts Hf. rewrite parse_assign_expr_S.
+      destruct l; try discriminate; apply B_assign_body; auto; lia.
+    - intros ts Hf. rewrite parse_function_expr_S. destruct ts as [|t ts0]; [discriminate|]. solveB IHB.
+    - intros ts Hf. rewrite parse_params_S. destruct ts as [|t ts0]; [discriminate|]. solveB IHB.
+    - intros l ts Hf. rewrite parse_call_expr_S.
+      destruct l; try discriminate; apply B_call_body; auto; lia.
+    - intros c ts Hf. rewrite parse_list_S. solveB IHB.
+    - intros ts Hf. rewrite parse_while_expr_S. destruct ts as [|t ts0]; [nilB f|]. solveB IHB.
+    - intros ts Hf. rewrite parse_array_expr_S. destruct ts as [|t ts0]; [nilB f|]. solveB IHB.
+    - intros l ts Hf. rewrite parse_index_expr_S.
+      destruct l; try discriminate; apply B_index_body; auto; lia.
+    - intros ts Hf. rewrite parse_statement_S. apply pt_bind_noof.
+      + apply B_stmt_head; auto. lia.
+      + intros [s ts1] E. discriminate.
+    - intros ts Hf. rewrite parse_block_statement_S. solveB IHB.
+    - intros ts Hf. rewrite parse_block_items_S. solveB IHB.
+  Qed.
+
+  Lemma B_holds f : B_all f.
+  Proof. induction f; auto using B_zero, B_step. Qed.
+
+  Lemma program_noof f : forall ts, 3 * length ts + 6 <= f -> parse_program pf f ts <> OutOfFuel.
+  Proof.
+    induction f as [|f IHf]; intros ts Hf; [lia|].
+    rewrite parse_program_S. pose proof (B_holds f) as IHB.
+    destruct (is_fix KEof (cur ts)); [discriminate|].
+    apply pt_bind_noof; [solveB IHB|]. intros [s ts1] E.
+    apply pt_bind_noof; [|discriminate]. apply IHf. facts. lia.
+  Qed.
+
+  (** The smallest linear bound this proof gives: three units of fuel per token
+      (attained by [ [ [ ... and { { { ..., see the examples at the end). *)
+  Theorem parse_terminates_bound :
+    forall ts fuel, 3 * length ts + 6 <= fuel -> parse_program pf fuel ts <> OutOfFuel.
+  Proof. intros ts fuel. apply program_noof. Qed.
+
+  Theorem parse_terminates : forall ts, parse_tokens pf ts <> OutOfFuel.
+  Proof. intros ts. unfold parse_tokens, fuel_for. apply program_noof. lia. Qed.
+
+
+  (** * C: no Fault when the oracle accepts every float literal of the input *)
+
+  Definition good (t : token) : Prop :=
+    match t with TFloatLit s => pf s <> None | _ => True end.
+
+  Record C_all (f : nat) : Prop := {
+    C_expr : forall p ts, Forall good ts -> nofault (parse_expr pf f p ts);
+    C_loop : forall p l ts, Forall good ts -> nofault (parse_loop pf f p l ts);
+    C_infix : forall l ts, Forall good ts -> operator_of (cur ts) <> None ->
+                           nofault (parse_infix_expr pf f l ts);
+    C_prefix : forall ts, Forall good ts -> operator_of (cur ts) <> None ->
+                          nofault (parse_prefix_expr pf f ts);
+    C_if : forall ts, Forall good ts -> nofault (parse_if_expr pf f ts);
+    C_assign : forall l ts, Forall good ts -> nofault (parse_assign_expr pf f l ts);
+    C_function : forall ts, Forall good ts -> nofault (parse_function_expr pf f ts);
+    C_params : forall ts, Forall good ts -> nofault (parse_params pf f ts);
+    C_call : forall l ts, Forall good ts -> nofault (parse_call_expr pf f l ts);
+    C_list : forall c ts, Forall good ts -> nofault (parse_list pf f c ts);
+    C_while : forall ts, Forall good ts -> nofault (parse_while_expr pf f ts);
+    C_array : forall ts, Forall good ts -> nofault (parse_array_expr pf f ts);
+    C_index : forall l ts, Forall good ts -> nofault (parse_index_expr pf f l ts);
+    C_statement : forall ts, Forall good ts -> nofault (parse_statement pf f ts);
+    C_block_statement : forall ts, Forall good ts -> nofault (parse_block_statement pf f ts);
+    C_block_items : forall ts, Forall good ts -> nofault (parse_block_items pf f ts)
+  }.
+
+  Lemma int_literal_nofault s : nofault (int_literal s).
+  Proof.
+    unfold int_literal. destruct (parse_digits s 0%N); [destruct (_ <=? _)%Z|]; intros x; discriminate.
+  Qed.
+  Lemma float_literal_nofault s ts : Forall good (TFloatLit s :: ts) -> nofault (float_literal pf s).
+  Proof.
+    intros H. inversion H as [|? ? Hs _]; subst. cbn in Hs.
+    unfold float_literal. destruct (pf s); [intros x; discriminate | congruence].
+  Qed.
+
+  (* Operator::from is defined on every token the parser passes to it (computed from the tables) *)
+  Lemma infix_has_operator t : is_infix_token t = true -> operator_of t <> None.
+  Proof.
+    destruct t as [s|s|s|s|k]; try discriminate.
+    destruct k; vm_compute; intros H; try discriminate H; intros H2; discriminate H2.
+  Qed.
+  Lemma prefix_has_operator : operator_of (TFix KBang) <> None /\ operator_of (TFix KMinus) <> None.
+  Proof. split; vm_compute; discriminate. Qed.
+
+  (* [Forall good X] for a remainder X of the input *)
+  Ltac goodgoal :=
+    match goal with
+    | Hg : Forall good ?ts |- Forall good _ =>
+        apply (sfx_Forall good _ ts); [ facts; chain | exact Hg ]
+    end.
+
+  Ltac nofaultstep IHC :=
+    match goal with
+    | |- nofault (Ok _) => apply nofault_ok
+    | |- nofault (Err _) => apply nofault_err
+    | |- nofault (skip _ _) => apply skip_nofault
+    | |- nofault (int_literal _) => apply int_literal_nofault
+    | |- nofault (float_literal _ _) => eapply float_literal_nofault; eassumption
+    | |- nofault (bind _ _) =>
+        let a := fresh "a" in let E := fresh "E" in
+        apply pt_bind_nofault; [ | intros a E; try (destruct a as [? ?]) ]
+    | |- context [match ?x with _ => _ end] =>
+        lazymatch x with context [match _ with _ => _ end] => fail | _ => idtac end;
+        first [ is_var x; destruct x | destruct x eqn:? ]
+    | |- nofault (parse_expr pf _ _ _) => apply (C_expr _ IHC); goodgoal
+    | |- nofault (parse_loop pf _ _ _ _) => apply (C_loop _ IHC); goodgoal
+    | |- nofault (parse_infix_expr pf _ _ _) =>
+        apply (C_infix _ IHC); [ goodgoal | apply infix_has_operator; assumption ]
+    | |- nofault (parse_prefix_expr pf _ _) =>
+        apply (C_prefix _ IHC); [ goodgoal | apply prefix_has_operator ]
+    | |- nofault (parse_if_expr pf _ _) => apply (C_if _ IHC); goodgoal
+    | |- nofault (parse_assign_expr pf _ _ _) => apply (C_assign _ IHC); goodgoal
+    | |- nofault (parse_function_expr pf _ _) => apply (C_function _ IHC); goodgoal
+    | |- nofault (parse_params pf _ _) => apply (C_params _ IHC); goodgoal
+    | |- nofault (parse_call_expr pf _ _ _) => apply (C_call _ IHC); goodgoal
+    | |- nofault (parse_list pf _ _ _) => apply (C_list _ IHC); goodgoal
+    | |- nofault (parse_while_expr pf _ _) => apply (C_while _ IHC); goodgoal
+    | |- nofault (parse_array_expr pf _ _) => apply (C_array _ IHC); goodgoal
+    | |- nofault (parse_index_expr pf _ _ _) => apply (C_index _ IHC); goodgoal
+    | |- nofault (parse_statement pf _ _) => apply (C_statement _ IHC); goodgoal
+    | |- nofault (parse_block_statement pf _ _) => apply (C_block_statement _ IHC); goodgoal
+    | |- nofault (parse_block_items pf _ _) => apply (C_block_items _ IHC); goodgoal
+    end.
+
+  Ltac solveC IHC := cbn [cur advance tl]; cbv zeta; repeat nofaultstep IHC.
+
+  Lemma C_head f (IHC : C_all f) ts : Forall good ts -> nofault (parse_head f ts).
+  Proof.
+    unfold parse_head. intros Hg. destruct ts as [|t ts0]; [apply nofault_err|]. solveC IHC.
+  Qed.
+
+
+  Lemma C_stmt_head f (IHC : C_all f) ts : Forall good ts -> nofault (stmt_head f ts).
+  Proof.
+    unfold stmt_head. intros Hg. destruct ts as [|t ts0]; solveC IHC.
+  Qed.
+
+  Lemma C_infix_body f (IHC : C_all f) l ts :
+    Forall good ts -> operator_of (cur ts) <> None -> nofault (infix_body f l ts).
+  Proof.
+    unfold infix_body. intros Hg Hop. destruct (operator_of (cur ts)) as [op|]; [|congruence].
+    clear Hop. solveC IHC.
+  Qed.
+
+  Lemma C_assign_body f (IHC : C_all f) l ts : Forall good ts -> nofault (assign_body f l ts).
+  Proof. unfold assign_body. intros Hg. solveC IHC. Qed.
+
+  Lemma C_index_body f (IHC : C_all f) l ts : Forall good ts -> nofault (index_body f l ts).
+  Proof. unfold index_body. intros Hg. solveC IHC. Qed.
+
+  Lemma C_call_body f (IHC : C_all f) l ts : Forall good ts -> nofault (call_body f l ts).
+  Proof. unfold call_body. intros Hg. solveC IHC. Qed.
+
+  Lemma C_zero : C_all 0.
+  Proof. split; intros; intros x; discriminate. Qed.
+
+  Lemma C_step f : C_all f -> C_all (S f).
+  Proof.
+    intros IHC. split.
+    - intros p ts Hg. rewrite parse_expr_S. apply pt_bind_nofault.
+      + apply C_head; auto.
+      + intros [l ts1] E. solveC IHC.
+    - intros p l ts Hg. rewrite parse_loop_S. solveC IHC.
+    - intros l ts Hg Hop. rewrite parse_infix_expr_S.
+      destruct l; try apply nofault_err; apply C_infix_body; auto.
+    - intros ts Hg Hop. rewrite parse_prefix_expr_S.
+      destruct (operator_of (cur ts)) as [op|]; [|congruence]. clear Hop. solveC IHC.
+    - intros ts Hg. rewrite parse_if_expr_S. solveC IHC.
+    - intros l ts Hg. rewrite parse_assign_expr_S.
+      destruct l; try apply nofault_err; apply C_assign_body; auto.
+    - intros ts Hg. rewrite parse_function_expr_S. solveC IHC.
+    - intros ts Hg. rewrite parse_params_S. solveC IHC.
+    - intros l ts Hg. rewrite parse_call_expr_S.
+      destruct l; try apply nofault_err; apply C_call_body; auto.
+    - intros c ts Hg. rewrite parse_list_S. solveC IHC.
+    - intros ts Hg. rewrite parse_while_expr_S. solveC IHC.
+    - intros ts Hg. rewrite parse_array_expr_S. solveC IHC.
+    - intros l ts Hg. rewrite parse_index_expr_S.
+      destruct l; try apply nofault_err; apply C_index_body; auto.
+    - intros ts Hg. rewrite parse_statement_S. apply pt_bind_nofault.
+      + apply C_stmt_head; auto.
+      + intros [s ts1] E. apply nofault_ok.
+    - intros ts Hg. rewrite parse_block_statement_S. solveC IHC.
+    - intros ts Hg. rewrite parse_block_items_S. solveC IHC.
+  Qed.
+
+  Lemma C_holds f : C_all f.
+  Proof. induction f; auto using C_zero, C_step. Qed.
+
+  Lemma program_nofault f : forall ts, Forall good ts -> nofault (parse_program pf f ts).
+  Proof.
+    induction f as [|f IHf]; intros ts Hg; [intros x; discriminate|].
+    rewrite parse_program_S. pose proof (C_holds f) as IHC.
+    destruct (is_fix KEof (cur ts)); [apply nofault_ok|].
+    apply pt_bind_nofault; [solveC IHC|]. intros [s ts1] E.
+    apply pt_bind_nofault; [|intros; apply nofault_ok]. apply IHf. goodgoal.
+  Qed.
+
+  Lemma good_of_in ts : (forall s, In (TFloatLit s) ts -> pf s <> None) -> Forall good ts.
+  Proof.
+    intros H. apply Forall_forall. intros t Ht. destruct t; cbn; auto.
+  Qed.
+
+  Theorem parse_no_panic :
+    forall ts, (forall s, In (TFloatLit s) ts -> pf s <> None) ->
+    forall f, parse_tokens pf ts <> Fault f.
+  Proof. intros ts H. apply program_nofault, good_of_in, H. Qed.
+
+  (** the parser always answers: a syntax tree or one of the documented errors *)
+  Corollary parse_total :
+    forall ts, (forall s, In (TFloatLit s) ts -> pf s <> None) ->
+    (exists b, parse_tokens pf ts = Ok b) \/ (exists k, parse_tokens pf ts = Err k).
+  Proof.
+    intros ts H. pose proof (parse_terminates ts) as H1. pose proof (parse_no_panic ts H) as H2.
+    destruct (parse_tokens pf ts) as [b|k|x|]; eauto; [destruct (H2 x) | destruct H1]; reflexivity.
+  Qed.
+
+
+End PT.
+
+(** * Part 3: the lexer *)
+
+Local Open Scope Z_scope.
+
+Lemma utf8_fold s : forall a, fold_left (fun acc c => acc + utf8_len1 c) s a = a + utf8_len s.
+Proof.
+  unfold utf8_len. induction s as [|c s IH]; intros a; cbn [fold_left]; [lia|].
+  rewrite IH, (IH (0 + _)). lia.
+Qed.
+Lemma utf8_len_nil : utf8_len [] = 0. Proof. reflexivity. Qed.
+Lemma utf8_len_cons c s : utf8_len (c :: s) = utf8_len1 c + utf8_len s.
+Proof. unfold utf8_len at 1. cbn [fold_left]. rewrite utf8_fold. lia. Qed.
+Lemma utf8_len_app a b : utf8_len (a ++ b) = utf8_len a + utf8_len b.
+Proof. induction a as [|c a IH]; cbn [app]; rewrite ?utf8_len_cons, ?utf8_len_nil; lia. Qed.
+Lemma utf8_len1_pos c : 1 <= utf8_len1 c.
+Proof. unfold utf8_len1. repeat destruct (_ <? _)%N; lia. Qed.
+Lemma utf8_len_nonneg s : 0 <= utf8_len s.
+Proof. induction s as [|c s IH]; rewrite ?utf8_len_cons, ?utf8_len_nil; [lia|]. pose proof (utf8_len1_pos c). lia. Qed.
+
+Section LexTotal.
+  Variable u : unicode.
+
+  Lemma span_app p s : forall a rest, span p s = (a, rest) -> s = a ++ rest.
+  Proof.
+    induction s as [|c s IH]; cbn [span]; intros a rest H.
+    - inversion H; reflexivity.
+    - destruct (p c).
+      + destruct (span p s) as [a0 b0]. inversion H; subst. cbn. f_equal. auto.
+      + inversion H; reflexivity.
+  Qed.
+
+  Lemma span_number_app s : forall d a rest d', span_number d s = (a, rest, d') -> s = a ++ rest.
+  Proof.
+    induction s as [|c s IH]; cbn [span_number]; intros d a rest d' H.
+    - inversion H; reflexivity.
+    - destruct (is_digit c).
+      + destruct (span_number d s) as [[a0 b0] d0] eqn:E. inversion H; subst. cbn. f_equal. eauto.
+      + destruct (negb d && (c =? 46)%N).
+        * destruct (span_number true s) as [[a0 b0] d0] eqn:E. inversion H; subst. cbn. f_equal. eauto.
+        * inversion H; reflexivity.
+  Qed.
+
+  Lemma span_string_app s : forall e a rest, span_string e s = (a, rest) -> s = a ++ rest.
+  Proof.
+    induction s as [|c s IH]; cbn [span_string]; intros e a rest H.
+    - inversion H; reflexivity.
+    - destruct (negb (c =? 34)%N || e).
+      + destruct (span_string _ s) as [a0 b0] eqn:E. inversion H; subst. cbn. f_equal. eauto.
+      + inversion H; reflexivity.
+  Qed.
+
+  (* one step of Tokenizer::next, the recursive call abstracted *)
+  Definition nt_body (rec : text -> Z -> option (token * text * Z)) (c : cp) (r : text) (pos : Z)
+    : option (token * text * Z) :=
+    let pos1 := pos + utf8_len1 c in
+    if ident_start u c then
+      let '(a, rest) := span (ident_char u) r in
+      Some (keyword_or_ident (c :: a), rest, pos1 + utf8_len a)
+    else if is_digit c then
+      let '(a, rest, dec) := span_number false r in
+      Some (if dec : bool then TFloatLit (c :: a) else TIntLit (c :: a), rest, pos1 + utf8_len a)
+    else if (c =? 34)%N then
+      let '(a, rest) := span_string false r in
+      match rest with
+      | [] => Some (TFix KIllegal, [], pos1 + utf8_len a)
+      | q :: rest' => Some (TStringLit a, rest', pos1 + utf8_len a + utf8_len1 q)
+      end
+    else if is_ws c then rec r pos1
+    else if (c =? 47)%N then
+      match r with
+      | 47%N :: _ =>
+          let '(a, rest) := span (fun x => negb (x =? 10)%N) r in
+          rec rest (pos1 + utf8_len a)
+      | _ => Some (TFix KSlash, r, pos1)
+      end
+    else
+      match find_double c double_tokens with
+      | Some (second, t, els) =>
+          let matched := match r with x :: _ => (x =? second)%N | [] => false end in
+          let tok := if matched then Some t else els in
+          match tok with
+          | None => Some (TFix KIllegal, r, pos1)
+          | Some k =>
+              if is_two_char k then
+                match r with
+                | x :: r' => Some (TFix k, r', pos1 + utf8_len1 x)
+                | [] => Some (TFix k, [], pos1)
+                end
+              else Some (TFix k, r, pos1)
+          end
+      | None =>
+          match assoc N.eqb c single_tokens with
+          | Some k => Some (TFix k, r, pos1)
+          | None => Some (TFix KIllegal, r, pos1)
+          end
+      end.
+
+  Lemma next_token_S f c r pos : next_token u (S f) (c :: r) pos = nt_body (next_token u f) c r pos.
+  Proof. reflexivity. Qed.
+  Lemma next_token_nil f pos : next_token u f [] pos = None.
+  Proof. destruct f; reflexivity. Qed.
+
+End LexTotal.
